@@ -2,10 +2,11 @@
 use crate::engine::PropertyInfo;
 
 pub mod c03;
+pub mod c04;
 pub mod c10;
 pub mod c17;
 pub mod c20;
 
 pub fn registry() -> Vec<PropertyInfo> {
-    vec![c03::info(), c10::info(), c17::info(), c20::info()]
+    vec![c03::info(), c04::info(), c10::info(), c17::info(), c20::info()]
 }
